@@ -76,6 +76,7 @@ class DeCx:
         # count is the access object's usize field
         self.flavor = ("F", ("P", self.self_), field_of(F, fn.locals[1]["ty"], lambda t: re.fullmatch(r"[A-Z]\w{0,3}", t or "") is not None, "flavor"))
         self.count_field = field_of(F, fn.locals[1]["ty"], lambda t: t == "usize", "len")
+        self.deser_field = field_of(F, fn.locals[1]["ty"], lambda t: re.match(r"^&('\w+ )?mut (\w+::)*Deserializer<", t or "") is not None, "deserializer")
         self.bits.types[("init", ("F", ("P", self.self_), self.count_field))] = "usize"
 
     def is_flavor(self, t):
@@ -586,7 +587,7 @@ def check_accept_or_reject(cx, fn, p, evs, P, seen):
         if len(sd) != 1 or not tail_is(sd[0]) or reads_of(cx, evs):
             return "expected exactly seed.deserialize(deserializer) in tail position"
         tgt = norm(sd[0]["args"][1])
-        ok_t = tgt == cx.self_ if n == "newtype_variant_seed" else tgt == ("init", ("F", ("P", cx.self_), "deserializer"))
+        ok_t = tgt == cx.self_ if n == "newtype_variant_seed" else tgt == ("init", ("F", ("P", cx.self_), cx.deser_field))
         if not ok_t:
             return "seed is not driven by this deserializer"
         seen.add("accept")
@@ -628,7 +629,7 @@ def check_accept_or_reject(cx, fn, p, evs, P, seen):
             return "reads an element although len may be 0"
         if len(wr) != 1 or not same_int(cx, wr[0]["val"], ("bin", "Sub", ln0, C(1, "usize"), "usize")):
             return "len is not decremented by exactly one per element"
-        if len(sd) != 1 or norm(sd[0]["args"][1]) != ("init", ("F", ("P", cx.self_), "deserializer")):
+        if len(sd) != 1 or norm(sd[0]["args"][1]) != ("init", ("F", ("P", cx.self_), cx.deser_field)):
             return "element seed is not driven by the wrapped deserializer"
         st = p.tagfacts.get(("tag", sd[0]["result"]))
         if st == 1:
